@@ -362,7 +362,7 @@ def run(ctx):
     cov.update({
         "evaluations": len(cases),
         "distinct_nontrivial": len(sigs),
-        "rule": "schedules of 10-32 steps (+ drain to quiescence) over 2 nodes, 6 service ids (plain, connect-native, connect-proxy, renamed), node and service checks, service-defaults config entries, ACL tokens/policies/role, KV noise; 8 subjects (health web/api/db, connect web/api, service-defaults web/api/wildcard); combined node+service registrations and transactions; flavours mixed, gap (bursts of commits then a subscription), eager (publish after every commit), restore (restored content may carry ACL rows), restorebuf (several subscribers share a subject across a restore), resume (resubscribe at the held index), acl, malformed (rejected writes, unknown clients, unsupported wildcard) and the corpus of minimised findings; distinct_nontrivial = distinct input schedules, every one executed on the real store+publisher+materializer, evaluated by the model in Coq step by step (every Next outcome, index, whole view; every query result after every commit; the path every Subscribe takes inside the publisher: error, resume from the topic buffer, cached snapshot, built snapshot) and by the direct oracle (which applies the delivered events itself, and computes the set of subscriptions an ACL write must close independently of the model)",
+        "rule": "schedules of 10-32 steps (+ drain to quiescence) over 2 nodes (one of them also written under a differently-cased name once that finding is recorded as fixed), 6 service ids (plain, connect-native, connect-proxy, renamed), node and service checks, service-defaults config entries, ACL tokens/policies/role, KV noise; 8 subjects (health web/api/db, connect web/api, service-defaults web/api/wildcard); combined node+service registrations and transactions; flavours mixed, gap (bursts of commits then a subscription), eager (publish after every commit), restore (restored content may carry ACL rows), restorebuf (several subscribers share a subject across a restore), resume (resubscribe at the held index), acl, malformed (rejected writes, unknown clients, unsupported wildcard) and the corpus of minimised findings; distinct_nontrivial = distinct input schedules, every one executed on the real store+publisher+materializer, evaluated by the model in Coq step by step (every Next outcome, index, whole view; every query result after every commit; the path every Subscribe takes inside the publisher: error, resume from the topic buffer, cached snapshot, built snapshot) and by the direct oracle (which applies the delivered events itself, and computes the set of subscriptions an ACL write must close independently of the model)",
         "traces_validated_against_impl": len(cases) - len(mism),
         "steps_executed": nsteps,
         "model_mismatches": len(mism),
